@@ -11,6 +11,7 @@ CONSTANTS
   Addl <- CAddl
   Ops <- QCOps
   MaxWord = 0
+  Letters = {"n", "b"}
 INVARIANT TypeOK
 INVARIANT Inv
 PROPERTY StepProp
